@@ -551,7 +551,7 @@ FINDING_TEXT = {'=text', '=', '=1+1', '\x85', 'a\x85b', '\U0001F600', 'x\U000100
 
 
 def _tok(v):
-    return c01._tok(v)
+    return core.enc(v) if isinstance(v, str) and v in core.ERR_TAGS else c01._tok(v)
 
 
 def _initial_ok(v):
@@ -683,5 +683,5 @@ def cases(tier, rng):
     for k in range(n):
         fmt = fmts[k % 3]
         r = rng.random()
-        mode = 'proc' if k % (12 if thorough else 80) < 3 else ('thread' if r < 0.45 else 'same')
+        mode = 'proc' if k % (24 if thorough else 80) < 3 else ('thread' if r < 0.45 else 'same')
         yield gen_case(rng, fmt, mode, 1 if rng.random() < 0.35 else 0)
